@@ -175,8 +175,9 @@ def r2(ctx, T, R, tt, rt):
             continue
         if step not in tt or step not in rt:
             continue
-        tv = _assigns(tt[step][1], _TA)
-        rv = _assigns(rt[step][1], _RA)
+        from csverif.q import inline as _inl
+        tv = [_inl(T.node, v) for v in _assigns(tt[step][1], _TA)]
+        rv = [_inl(R.node, v) for v in _assigns(rt[step][1], _RA)]
         ok = False
         detail = f"transform data={[src(v) for v in tv]} recover data={[src(v) for v in rv]}"
         if len(tv) == 1 and len(rv) == 1:
